@@ -1,4 +1,43 @@
-from obl.dbimpl_lifecycle import destroy_obls, backup_obls
+from obl.dbimpl_lifecycle import destroy_obls, backup_obls, cmpmismatch_obls
 
-OBLIGATIONS = destroy_obls("c") + backup_obls("e")
-META = {"level": "model_checking"}
+# a.*  C20.a  ldb_lock_file / ldb_unlock_file over libc stubs: one handle per database directory (owner: envunix family)
+# b.*  C20.b  the real ldb_open: every failure releases the lock (and everything else), removes nothing (owner: recovery family)
+# c.*  C20.c  the real ldb_destroy: own files only, LOCK last, nothing without the lock
+# d.*  C20.d  the real ldb_versions_recover: foreign comparator name refused before anything is modified
+# e.*  C20.e  the real ldb_backup / ldb_copy / ldb_backup_inner: protected window, copy set, source untouched, clean-up
+OBLIGATIONS = destroy_obls("c") + cmpmismatch_obls("d") + backup_obls("e")
+
+try:
+    from obl.envunix_common import lockfile_obls
+    OBLIGATIONS = lockfile_obls("a") + OBLIGATIONS
+except ImportError:
+    pass
+
+try:
+    from obl.dbimpl_recover import open_obls
+    OBLIGATIONS = OBLIGATIONS + open_obls("b", quick=((1, 1, 1, 2),), thorough=((2, 1, 0, 2),))
+except ImportError:
+    pass
+
+META = {
+    "level": "model_checking",
+    "level_text": "Bounded model checking (CBMC) of the real lifecycle functions of db_impl.c (#included, so the static ldb_backup_inner itself runs) and of the real ldb_versions_recover (version_set.c #included, with the real version_edit.c decoder) over symbolic directories and symbolic results of every environment call. ldb_destroy: over every listing of <=5 entries (own files of every type, foreign names) plus a lost/ sub-directory, ldb_remove_file is called only for listed names that ldb_parse_filename accepts, each once and only while the LOCK is held; the LOCK file goes after the unlock and after everything else, the directory last (failure ignored); a refused lock removes nothing; a missing directory is OK. ldb_backup: waits exactly while a background compaction is scheduled, takes the live set under the mutex and neither releases nor waits on it until the last file is transferred; ldb_copy holds the source's LOCK instead. ldb_backup_inner: the transferred set equals a reference (live tables hard-linked, dead tables/temp/LOCK/foreign skipped, logs/MANIFEST/CURRENT copied, info log only for ldb_copy), same names, the source directory receives no unlink/rename/write/truncate, the backup's own LOCK is taken first and released+removed on every path, the first failure stops the copy and every file created so far (also a partial one) is removed, the directory last, and the first error is returned; on success the directory is synced last. ldb_versions_recover: a MANIFEST record whose comparator name differs (in length or in any byte) from the handle's comparator name yields LDB_INVALID with no file-system modification issued up to the return and the version set untouched; an equal name proceeds. ldb_open failure paths release the lock and remove nothing; ldb_lock_file refuses a second handle on the same (device, inode).",
+    "level_note": "Trusted: CBMC's semantics of the goto-cc translation; the path-name model kit/vp_d9_names (ldb_parse_filename / ldb_join / ldb_lock_filename / ldb_current_filename over encoded (directory, type, number, spelling) buffers: the text parser/formatter of filename.c is decided by C17/C18, here its contract is assumed); the env stubs (each call returns a symbolic status; the ghost backup directory: a successful or partially failed copy/link creates the entry, the clean-up listing shows exactly what was created); the record source of ldb_versions_recover (ldb_reader_read_record hands out standard-format records built byte by byte in the harness: the log reader is decided by C15); the environment model of other threads in ldb_backup (act only while the mutex is released or waited on; the background thread may reschedule itself <=2 times and latch an error). NOT decided here: that the copied directory opens and holds the source's contents (whole-program; the step from 'every file a recovery needs is in the copy, taken while nothing could change the file set' to 'opens and equals the source' is the prose argument of DESIGN 6 C20 together with C05/C03); a write-ahead-log record being appended by a writer that released the mutex for its I/O may be copied torn or complete (C15 decides that a torn tail is dropped). Two clean-up gaps of ldb_backup_inner are recorded as observations, not obligations (factory backup_strict_obls fails on them): a failed ldb_lock_file that had already created <bak>/LOCK, and a failed final ldb_sync_dir, leave files in the backup directory and return the error.",
+    "bounds": ["ldb_destroy: <=5 (thorough 7) entries in the database directory and <=2 (3) in lost/, each an own name of any type with a 64-bit number and either spelling, or a foreign name; either listing may fail (ENOENT or any error); the lock may be refused with any error; every unlink/rmdir/unlock returns a symbolic status; every path may be too long to build",
+               "ldb_backup / ldb_copy: source directory of <=4 (thorough 5) entries as above, <=2 (3) live table numbers (64 bit), <=2 waits; mkdir, lock, both listings, every copy/link (incl. leaving a partial file), unlink, rmdir, unlock and the directory sync return symbolic statuses; symbolic bg_error and background_compaction_scheduled; ldb_copy: CURRENT present or not, source lock granted or refused",
+               "ldb_versions_recover: 1 or 2 MANIFEST records, comparator name present in either, handle's name 2..3 (thorough 26) symbolic non-zero bytes, stored name 2..4 (thorough 25..26) symbolic bytes, one-byte counters; CURRENT read, MANIFEST open, size query and append-open may fail; reuse_logs symbolic",
+               "ldb_open (C20.b): as obl/dbimpl_recover.py open_obls (directory of 1-2 names, every env call may fail); ldb_lock_file (C20.a): as obl/envunix_common.py lockfile_obls (2-3 operations over 3 names, two sharing (dev,ino))"],
+    "outside": ["that a backup/copy opens and equals the source at that moment (whole-program run); fsync of the copied files' data is inside ldb_copy_file (env layer), not seen here",
+                "directories with more entries than the bound (each entry is handled independently by the code, but this is not proved)",
+                "backup/database names longer than LDB_PATH_MAX-35 (refused up front by a strlen test that is executed but only with short names)",
+                "cross-process exclusion (the fcntl lock itself is the kernel's), Windows env",
+                "text of file names (filename.c: C17/C18), the real log reader under ldb_versions_recover (C15), MANIFEST records with files/compaction pointers in the comparator obligations (C14/C17)",
+                "real thread schedules (ldb_backup's window is decided by ghost-mutex monitors)"],
+    "models": ["harness/dbimpl/world.h ghost mutex/condvar; interference at every wait",
+               "kit/vp_d9_names.c encoded path names in several directories (ldb_parse_filename, ldb_join, ldb_lock_filename, ldb_current_filename)",
+               "harness/dbimpl/destroy.c, backup.c: env stubs/recorders (ldb_get_children, ldb_lock_file, ldb_unlock_file, ldb_remove_file, ldb_remove_dir, ldb_create_dir, ldb_copy_file, ldb_link_file, ldb_sync_dir, ldb_file_exists, ldb_system_error), live set = ldb_versions_add_files stub + membership model of rb_set64",
+               "harness/vset/comparator_mismatch.c: CURRENT/MANIFEST stubs, record source, monitors on every modifying env/log-writer call; real version_edit.c, buffer.c, slice.c, rbt.c, dbformat.c, strutil.c underneath",
+               "kit/vp_alloc_c17.c (malloc never fails, slab realloc), kit/vp_mem.c byte loops",
+               "harness/dbimpl/recover_world.h (C20.b), harness/envunix/libc.h (C20.a)"],
+    "design_ref": "DESIGN.md section 6 C20 (a-e)",
+}
